@@ -169,6 +169,7 @@ TChildUnsuspend == IsEvent("ChildUnsuspend") /\ Ok
           /\ ChildUnsuspend(Args.c) /\ Projected(Line.abs)
 TChildUnsuspendNoop == IsEvent("ChildUnsuspend") /\ Ok
           /\ cstate[Args.c] = "active" /\ UNCHANGED vars /\ Projected(Line.abs)
+TChildMap == IsEvent("ChildMap") /\ Ok /\ UNCHANGED vars /\ Projected(Line.abs)
 TChildRemove == IsEvent("ChildRemove") /\ Ok
           /\ ChildRemove(Args.c) /\ Projected(Line.abs)
 TRoaAdd == IsEvent("RoaAdd") /\ Ok
@@ -214,7 +215,7 @@ TRepoSyncAll == IsEvent("RepoSyncAll") /\ Ok /\ RepoSyncAll /\ Projected(Line.ab
 \* one refusal the hierarchy model itself predicts.)
 TRefused ==
     /\ l <= Len(Rec)
-    /\ Line.ev \in {"AddCa", "ChildRes", "ChildSuspend", "ChildUnsuspend",
+    /\ Line.ev \in {"AddCa", "ChildRes", "ChildMap", "ChildSuspend", "ChildUnsuspend",
                     "ChildRemove", "RoaAdd", "RoaDel", "RoaDelta", "AspaSet", "RtrAdd", "RtrDel", "RollInit",
                     "RollActivate", "DeleteCa"}
     /\ IsError /\ l' = l + 1 /\ rp' = Line.rp
@@ -275,6 +276,23 @@ TExpectByMargin == IsEvent("ExpectByMargin") /\ UNCHANGED vars /\ Projected(Line
           ELSE /\ Line.abs.keys[k].mft = mark[k].mft
                /\ Line.abs.keys[k].objs = mark[k].objs
                /\ Line.abs.keys[k].mft_next = mark[k].mft_next
+\* ... observed before anything is published, on the manifest numbers in the
+\* CAs' own object stores (also while a roll is under way: the old key's set
+\* is re-issued with the others).  Due-ness is that of the stored sets.
+StoreDueCAs(K, now, margin) ==
+    {K[k].ca : k \in {j \in DOMAIN K : K[j].ca \in AllCA /\ K[j].store >= 0
+                                       /\ K[j].store_next < now + margin}}
+TRepublishByStoreMargin == IsEvent("RepublishByStoreMargin") /\ Ok
+    /\ RepublishFor(StoreDueCAs(keys, Line.abs.now, Line.margin)) /\ Projected(Line.abs)
+TExpectStoreByMargin == IsEvent("ExpectStoreByMargin") /\ UNCHANGED vars /\ Projected(Line.abs)
+    /\ DOMAIN mark = DOMAIN Line.abs.keys
+    /\ LET due == StoreDueCAs(mark, Line.abs.now, Line.margin) IN
+       \A k \in DOMAIN mark : mark[k].store >= 0 =>
+          IF mark[k].ca \in due
+          THEN /\ Line.abs.keys[k].store = mark[k].store + 1
+               /\ Line.abs.keys[k].store_next >= Line.abs.now + Line.margin
+          ELSE /\ Line.abs.keys[k].store = mark[k].store
+               /\ Line.abs.keys[k].store_next = mark[k].store_next
 \* a restart (with the due / the normal timing values) changes nothing
 TRestart == (IsEvent("Restart") \/ IsEvent("RestartDue") \/ IsEvent("RestartNormal")
              \/ IsEvent("RestartMargin"))
@@ -319,10 +337,10 @@ TraceNext ==
     \/ Reset \/ Setup
     \/ TAddCa \/ TChildRes \/ TChildResSame \/ TChildSuspend \/ TChildSuspendNoop
     \/ TChildUnsuspend \/ TChildUnsuspendNoop \/ TChildRemove
-    \/ TRoaAdd \/ TRoaDel \/ TRtrAdd \/ TRtrDel \/ TRoaDelta \/ TAspaSet \/ TAspaDel \/ TRollInit \/ TRollInitNoop
+    \/ TChildMap \/ TRoaAdd \/ TRoaDel \/ TRtrAdd \/ TRtrDel \/ TRoaDelta \/ TAspaSet \/ TAspaDel \/ TRollInit \/ TRollInitNoop
     \/ TRollActivate \/ TRollActivateNoop \/ TDeleteCa \/ TRefresh
     \/ TRefused \/ TStep \/ TSettled \/ TPubRemove \/ TPubAdd \/ TRepoSyncAll
-    \/ TRepublish \/ TRenew \/ TRestart \/ TDueTouch \/ TRepublishByMargin \/ TExpectByMargin \/ TMark \/ TExpectSame \/ TExpectReissued \/ TExpectRenewed
+    \/ TRepublish \/ TRenew \/ TRestart \/ TDueTouch \/ TRepublishByMargin \/ TExpectByMargin \/ TRepublishByStoreMargin \/ TExpectStoreByMargin \/ TMark \/ TExpectSame \/ TExpectReissued \/ TExpectRenewed
 
 TraceSpec == TraceInit /\ [][TraceNext]_tvars
 
